@@ -2010,3 +2010,7 @@ mod tests {
         assert_eq!(array.total_bytes_len(), 2 + 27);
     }
 }
+
+#[cfg(kani)]
+#[path = "/verif/kani/arrow-array/array/byte_view_array.rs"]
+mod verif_kani;
